@@ -123,6 +123,9 @@ class IdealNet(torch.nn.Module):
         B, C, H, W = x.shape
         self.calls.append((B, H, W))
         S = self.stride
+        if self.kind == "blob":
+            # grayscale blob frames: the image is its own confidence map, sampled on the stride grid
+            return x[:, :1, ::S, ::S].clone()
         outs = []
         pafs = []
         for b in range(B):
